@@ -67,6 +67,21 @@ def reentrant_cases(rng, seed):
             scn = ["conc", ["objects"] + objs, ["init", ["sub", 0, 0, ["react", i, ["next", 0, 5 + i]]]], ["threads"] + threads, ["fini"],
                    ["sched", "random", seed * 1000 + rng.randrange(1000), MAX_RUNS], ["want-edges"]]
             cases.append({"scn": scn, "from": "feedback-" + opn})
+    # time-based operators driven by the SYNCHRONOUS default scheduler: the deadline of timeout fires inside the very call that armed
+    # it (the item's next() returns after the period with TimedOut delivered), an interval ticks on the subscribing thread until the
+    # operator above it lets go of it - every such call must return
+    d = rng.choice([3, 5])
+    sync = [(["op", "timeout_sync", [d], ["hot", 0]], [["a", ["sleep", 1], ["next", 0, 1], ["next", 0, 2], ["complete", 0]]], []),
+            (["op", "timeout_sync", [d], ["from_iter", 1, 2]], [], []),
+            (["op", "map", [["add", 1]], ["op", "timeout_sync", [d], ["hot", 0]]], [["a", ["next", 0, 1]], ["b", ["sleep", 1], ["next", 0, 2]]], []),
+            (["op", "take", [2], ["interval_sync", d]], [], []),
+            (["op", "skip_until", [], ["from_iter", 1, 2], ["interval_sync", d]], [], []),
+            (["op", "take_until", [], ["hot", 0], ["interval_sync", d]], [], []),
+            (["op", "take", [2], ["op", "amb", [], ["interval_sync", d], ["never"]]], [], [])]
+    for pipe, threads, reacts in sync:
+        scn = ["conc", ["objects", ["subject", "subject"], ["pipe", pipe]], ["init", ["sub", 0, 0] + reacts], ["threads"] + threads, ["fini"],
+               ["sched", "random", seed * 1000 + rng.randrange(1000), 3], ["want-edges"]]
+        cases.append({"scn": scn, "from": "sync-scheduler"})
     return cases
 
 
@@ -153,6 +168,9 @@ def judge(cases, runs):
                     sd = ["pct", f[2], ob.get("seed", 0), 1]
             if ob["status"] != "ok" or ob.get("panics", 0):
                 viol.append((ci, sd, "run ended with status %s (panics %s): %s" % (ob["status"], ob.get("panics"), str(ob.get("detail", ob.get("msg", "")))[:600])))
+                continue
+            if str(ob.get("timelimit", "0")) != "0" and case["from"] == "sync-scheduler":
+                viol.append((ci, sd, "virtual time limit reached: a ticker driven by the synchronous scheduler keeps its (subscribing / emitting) thread for ever - the call into the library never returns"))
                 continue
             es = []
             threads_nesting = set()
